@@ -104,6 +104,43 @@ def gen_case(rng):
     return spec, sig, muts, cur, deleted, None
 
 
+def family():
+    """deterministic cases: renames and deletes around models that refer to themselves and to each other"""
+    def fld(name, t, related=None, **attrs):
+        return {'name': name, 'type': t, 'attrs': attrs, 'related': related}
+
+    def mdl(app, name, fields):
+        return {'name': name, 'table': '%s_%s' % (app, name.lower()), 'unique_together': [], 'index_together': [],
+                'indexes': [], 'constraints': [], 'fields': [fld('id', 'AutoField', primary_key=True)] + fields}
+    spec = {'apps': [
+        {'id': 'vapp', 'models': [
+            mdl('vapp', 'Category', [fld('parent', 'ForeignKey', 'vapp.Category', null=True),
+                                     fld('see_also', 'ManyToManyField', 'vapp.Category'),
+                                     fld('twin', 'OneToOneField', 'vapp.Category', null=True)]),
+            mdl('vapp', 'Item', [fld('cat', 'ForeignKey', 'vapp.Category', null=True)])]},
+        {'id': 'wapp', 'models': [mdl('wapp', 'Listing', [fld('cat', 'ForeignKey', 'vapp.Category', null=True),
+                                                          fld('cats', 'ManyToManyField', 'vapp.Category')])]}]}
+    rm = lambda old, new: {'t': 'RenameModel', 'old': old, 'new': new, 'db_table': 'vapp_%s' % new.lower()}
+    seqs = [
+        [rm('Category', 'Section')],
+        [rm('Category', 'Section'), rm('Section', 'Topic')],
+        [rm('Item', 'Product'), rm('Category', 'Section')],
+        [rm('Category', 'Section'), {'t': 'RenameField', 'model': 'Section', 'old': 'parent', 'new': 'up',
+                                     'db_column': None, 'db_table': None}],
+        [rm('Category', 'Section'), {'t': 'RenameAppLabel', 'old': 'vapp', 'new': 'lib', 'legacy': None, 'models': None}],
+        [{'t': 'DeleteField', 'model': 'Category', 'field': 'twin'}, rm('Category', 'Section')],
+    ]
+    return [(spec, q) for q in seqs]
+
+
+def family_case(spec, seq):
+    sig = sigs.sig_from_spec(spec)
+    r = sigs.real_simulate(sig, 'vapp', [sigs.real_mutation(m) for m in seq])
+    if r[0] != 'ok':
+        return spec, sig, seq, None, set(), r
+    return spec, sig, seq, r[1], set(), None
+
+
 def run(ctx):
     dj.setup()
     quick = ctx.tier == 'quick'
@@ -114,8 +151,9 @@ def run(ctx):
     n = 500 if quick else 8000
     cases = []
     req_cases = []
+    fam = family()
     for _ in range(n):
-        spec, sig, muts, final, deleted, crash = gen_case(ctx.rng)
+        spec, sig, muts, final, deleted, crash = family_case(*fam.pop(0)) if fam else gen_case(ctx.rng)
         if not muts:
             continue
         cases.append((spec, sig, muts, final, deleted, crash))
